@@ -7,6 +7,7 @@ import SoyVerif.Lemmas.ParserColl
 
 set_option linter.unusedSimpArgs false
 set_option linter.unusedVariables false
+set_option linter.unusedSectionVars false
 
 namespace SoyVerif.Lemmas.ParserRound
 open SoyVerif SoyVerif.Model SoyVerif.Model.Parser SoyVerif.Model.PrintTokens SoyVerif.Model.Printer
@@ -48,6 +49,14 @@ mutual
 end
 
 theorem aAll (e : Expr) : AStmt pf e := A_of_B pf T (bAll pf T e)
+
+/-- fuel independence: every fuel above 8 per token gives the tree -/
+theorem parse_slot_fuel (e : Expr) (ts : List Tk) (items : List Item)
+    (hS : Slot 0 e (Renders pf e) ts) (hit : items.map Item.tk = ts ++ [tEOF]) (F : Nat) (hF : 8 * ts.length + 1 ≤ F) :
+    ∃ e' st2, parseExpr pf F 0 (initState items) = .ok (e', st2) ∧ erase e' = erase e ∧ At1 st2 [tEOF] := by
+  have hst : At (initState items) (ts ++ tEOF :: []) := by
+    have := at_init items; rw [hit] at this; exact this
+  exact slot0 pf T (aAll pf T e) hS (h := tEOF) (Or.inr (Or.inr (Or.inr rfl))) hst (F := F) (by omega)
 
 /-- the entry point: any rendering of `e` (possibly inside redundant parentheses), with any
     positions, followed by EOF, parses to `e` modulo positions — with the fuel `parseExprEntry` uses -/
